@@ -205,8 +205,12 @@ def judge_error_task(case, real, ans):
     """error responses (ErrorTask) always close and must say so, once; the client of a HEAD
     request finds no body and nothing left over"""
     n, left, resps = parse_answer(ans)
-    if case["disc"] is not None or not T.wire_of(real):
+    if case["disc"] is not None:
         return None
+    if real["esc"] != "none":
+        return ("exception escaped service() from the server's own error path", "none", real["esc"], None)
+    if not T.wire_of(real):
+        return ("request.error but no error response was written", "one complete error response", "nothing", None)
     if n != 1 or left:
         return ("client cannot parse the error response", "one complete response", "n=%d left=%r" % (n, left[:40]), None)
     r = resps[0]
@@ -215,14 +219,19 @@ def judge_error_task(case, real, ans):
     cls = [v for k, v in r["fields"] if k.lower() == b"content-length"]
     if len(cls) != 1 or not cls[0].isdigit():
         return ("error response without exactly one decimal Content-Length", "one", repr(cls), None)
+    if int(cls[0]) != len(T.expected_error_body(case)):
+        return ("error response announces a length that is not the length of Error.to_response's text",
+                str(len(T.expected_error_body(case))), cls[0].decode(), None)
     if case["req"]["head"]:
         if r["fr"] != "N" or r["body"]:
             return ("error response to HEAD carries a body", "FNoBody", r["fr"], None)
     else:
         if r["fr"] != "L%d" % int(cls[0]) or len(r["body"]) != int(cls[0]):
             return ("error response body differs from the announced Content-Length", "L" + cls[0].decode(), "%s/%d" % (r["fr"], len(r["body"])), None)
-        if not r["body"].endswith(b")") or b"(generated by " not in r["body"]:
-            return ("error response body is not Error.to_response's text", "... (generated by <ident>)", repr(r["body"][-40:]), None)
+        want = T.expected_error_body(case)
+        if r["body"] != want:
+            return ("error response body is not Error.to_response's text (reason, message / traceback text, ident -- whatever characters they contain)",
+                    repr(want[:80]), repr(r["body"][:80]), None)
     conn_vals = [v.lower() for k, v in r["fields"] if k.lower() == b"connection"]
     if real["close"] != "1":
         return ("error response but the connection is kept", "close", "keep", None)
